@@ -177,24 +177,67 @@ def harness_build(name, features=None, extra_env=None, variant=None, no_default=
 
 # ---------------------------------------------------------------- line protocol
 
-def run_lines(binary, lines, timeout=3600, restart=True, env=None, limit_as=None):
+def run_lines(binary, lines, timeout=3600, restart=True, env=None, limit_as=None, stall=None, max_hangs=4):
     """Feed request lines to a line-protocol binary; one reply per request.
-    If the process dies, the request it died on is answered `abort signal` and a fresh process continues."""
+    If the process dies, the request it died on is answered `abort signal` and a fresh process continues.
+    `stall` (seconds; only for binaries that flush every reply, i.e. the Rust harnesses): when no reply arrives for that long the process is
+    killed, the request it was working on is answered `abort hang …` and a fresh process continues with the next one."""
     replies = []
     pos = 0
     n = len(lines)
+    n_hangs = 0
     while pos < n:
+        if n_hangs >= max_hangs:
+            # every hang costs `stall` seconds: after a few, the rest of this share is left unevaluated (reported as such, never as held)
+            replies.extend([f"skipped after {n_hangs} hangs"] * (n - pos))
+            break
         chunk = lines[pos:]
         pre = None
         if limit_as:
             import resource
             def pre():
                 resource.setrlimit(resource.RLIMIT_AS, (limit_as, limit_as))
-        p = subprocess.run([binary], input="\n".join(chunk) + "\n", stdout=subprocess.PIPE, stderr=subprocess.PIPE,
-                           text=True, timeout=timeout, env=env, preexec_fn=pre)
-        got = p.stdout.split("\n")
-        if got and got[-1] == "":
-            got.pop()
+        hung = False
+        if stall is None:
+            p = subprocess.run([binary], input="\n".join(chunk) + "\n", stdout=subprocess.PIPE, stderr=subprocess.PIPE,
+                               text=True, timeout=timeout, env=env, preexec_fn=pre)
+            got = p.stdout.split("\n")
+            if got and got[-1] == "":
+                got.pop()
+            rcode, err = p.returncode, p.stderr
+        else:
+            import threading
+            p = subprocess.Popen([binary], stdin=subprocess.PIPE, stdout=subprocess.PIPE, stderr=subprocess.PIPE, text=True, env=env, preexec_fn=pre)
+            got, errbuf, last = [], [], [time.time()]
+
+            def feed():
+                try:
+                    p.stdin.write("\n".join(chunk) + "\n")
+                    p.stdin.close()
+                except (BrokenPipeError, OSError, ValueError):
+                    pass
+
+            def read_out():
+                for line in p.stdout:
+                    got.append(line.rstrip("\n"))
+                    last[0] = time.time()
+
+            def read_err():
+                errbuf.append(p.stderr.read())
+            ths = [threading.Thread(target=f, daemon=True) for f in (feed, read_out, read_err)]
+            for t in ths:
+                t.start()
+            t_start = time.time()
+            while ths[1].is_alive():
+                ths[1].join(0.2)
+                if time.time() - last[0] > stall or time.time() - t_start > timeout:
+                    hung = True
+                    p.kill()
+                    break
+            p.wait()
+            for t in ths:
+                t.join(5)
+            rcode, err = p.returncode, "".join(x or "" for x in errbuf)
         got = got[:len(chunk)]
         replies.extend(got)
         pos += len(got)
@@ -202,8 +245,12 @@ def run_lines(binary, lines, timeout=3600, restart=True, env=None, limit_as=None
             if not restart:
                 replies.extend(["abort noreply"] * (n - pos))
                 break
-            why = "_".join((p.stderr or "").strip().split("\n")[-1].split())[:100]
-            replies.append(f"abort signal rc={p.returncode} {why}")
+            if hung:
+                n_hangs += 1
+                replies.append(f"abort hang no reply within {stall}s")
+            else:
+                why = "_".join((err or "").strip().split("\n")[-1].split())[:100]
+                replies.append(f"abort signal rc={rcode} {why}")
             pos += 1
     return replies
 
@@ -213,6 +260,16 @@ def run_parallel(binary, lines, jobs=16, **kw):
     from concurrent.futures import ThreadPoolExecutor
     if len(lines) < 64 or jobs <= 1:
         return run_lines(binary, lines, **kw)
+    if kw.get("stall") is not None:
+        # interleaved shares: neighbouring requests (the faults of one frame) go to different processes, so that a frame whose faults hang
+        # does not serialise all its stalls in one share
+        parts = [lines[i::jobs] for i in range(jobs)]
+        with ThreadPoolExecutor(max_workers=jobs) as ex:
+            outs = list(ex.map(lambda p: run_lines(binary, p, **kw), parts))
+        res = [None] * len(lines)
+        for i, o in enumerate(outs):
+            res[i::jobs] = o
+        return res
     k = (len(lines) + jobs - 1) // jobs
     parts = [lines[i:i + k] for i in range(0, len(lines), k)]
     with ThreadPoolExecutor(max_workers=jobs) as ex:
